@@ -22,8 +22,23 @@ pub enum Item {
     Str(Vec<u32>), // \q{..} (v mode)
 }
 
+/// A v-mode class expression as written (operands, nested classes, the three operators).
+#[derive(Clone)]
+pub enum VE {
+    Ch(u32),
+    Range(u32, u32),
+    Esc(char),                 // d D w W s S
+    Prop(bool, &'static str),  // \p{name} (false) / \P{name} (true)
+    Strs(Vec<Vec<u32>>),       // \q{..|..}
+    Union(Vec<VE>),
+    Inter(Vec<VE>),
+    Sub(Vec<VE>),
+    Neg(Vec<VE>),              // [^ ... ] (no strings below)
+}
+
 #[derive(Clone)]
 pub enum Ast {
+    VClass(VE),
     Empty,
     Char(u32),
     Any,
@@ -69,11 +84,41 @@ impl<'a> G<'a> {
             }
         }
     }
+    /// a v-mode class expression; `allow_str` is false below a negation (MayContainStrings is syntactic)
+    pub fn ve(&mut self, depth: u32, allow_str: bool) -> VE {
+        const VCH: &[u32] = &[0x61, 0x62, 0x63, 0x41, 0x42, 0x6B, 0x4B, 0x212A, 0x73, 0x53, 0x17F, 0xE9, 0xC9, 0xDF, 0x31, 0x5F, 0x2D, 0x26, 0x1F600, 0x3C3, 0x3C2, 0x3A3, 0x66, 0x46, 0x67];
+        let k = if depth == 0 { self.r.below(6) } else { self.r.below(12) };
+        match k {
+            0 | 1 => VE::Ch(*self.r.pick(VCH)),
+            2 => {
+                let (a, b) = *self.r.pick(&[(0x61u32, 0x63u32), (0x41, 0x43), (0x61, 0x7A), (0x41, 0x5A), (0x30, 0x39), (0x4A, 0x4C), (0x6A, 0x6C), (0x17E, 0x180), (0xE0, 0xFF), (0x3B1, 0x3C9), (0x2129, 0x212B)]);
+                VE::Range(a, b)
+            }
+            3 => VE::Esc(*self.r.pick(&['d', 'D', 'w', 'W', 's', 'S'])),
+            4 => VE::Prop(self.r.chance(1, 2), *self.r.pick(&["Lu", "Ll", "ASCII_Hex_Digit", "ASCII", "Lt"])),
+            5 => {
+                if allow_str {
+                    let n = 1 + self.r.below(3);
+                    VE::Strs((0..n).map(|_| { let l = self.r.below(4); (0..l).map(|_| *self.r.pick(&[0x61u32, 0x62, 0x41, 0x42, 0x78, 0xE9, 0x6B, 0x4B])).collect() }).collect())
+                } else {
+                    VE::Ch(*self.r.pick(VCH))
+                }
+            }
+            6 | 7 => { let n = 1 + self.r.below(4); VE::Union((0..n).map(|_| self.ve(depth - 1, allow_str)).collect()) }
+            8 | 9 => { let n = 2 + self.r.below(2); VE::Inter((0..n).map(|_| self.ve(depth - 1, allow_str)).collect()) }
+            10 => { let n = 2 + self.r.below(2); VE::Sub((0..n).map(|_| self.ve(depth - 1, allow_str)).collect()) }
+            _ => { let n = 1 + self.r.below(3); VE::Neg((0..n).map(|_| self.ve(depth - 1, false)).collect()) }
+        }
+    }
     fn atom(&mut self, depth: u32, in_lb: bool) -> Ast {
         let k = if depth == 0 { [0, 1, 2, 3, 4, 5, 6, 7, 8, 19, 20][self.r.below(11) as usize] } else { self.r.below(24) };
         match k {
             0 | 1 | 2 | 3 => Ast::Char(*self.r.pick(CHARS)),
             4 => Ast::Any,
+            5 | 6 if self.vmode && self.r.chance(1, 3) => {
+                let d = 1 + self.r.below(2) as u32;
+                Ast::VClass(self.ve(d, true))
+            }
             5 | 6 => {
                 let n = self.r.below(4) as usize;
                 let allow_str = self.vmode;
@@ -223,8 +268,90 @@ fn esc_char(c: u32, out: &mut String, in_class: bool, vmode: bool) {
         out.push(ch);
     }
 }
+fn print_ve_item(e: &VE, out: &mut String, operand: bool) {
+    match e {
+        VE::Ch(c) => esc_char(*c, out, true, true),
+        VE::Range(a, b) => {
+            if operand { out.push('['); }
+            esc_char(*a, out, true, true);
+            out.push('-');
+            esc_char(*b, out, true, true);
+            if operand { out.push(']'); }
+        }
+        VE::Esc(c) => { out.push('\\'); out.push(*c); }
+        VE::Prop(neg, name) => { out.push_str(if *neg { "\\P{" } else { "\\p{" }); out.push_str(name); out.push('}'); }
+        VE::Strs(ss) => {
+            out.push_str("\\q{");
+            for (i, st) in ss.iter().enumerate() {
+                if i > 0 { out.push('|'); }
+                for c in st { esc_char(*c, out, true, true); }
+            }
+            out.push('}');
+        }
+        _ => print_ve_class(e, out),
+    }
+}
+pub fn print_ve_class(e: &VE, out: &mut String) {
+    match e {
+        VE::Union(l) => { out.push('['); for x in l { print_ve_item(x, out, false); } out.push(']'); }
+        VE::Neg(l) => { out.push_str("[^"); for x in l { print_ve_item(x, out, false); } out.push(']'); }
+        VE::Inter(l) => { out.push('['); for (i, x) in l.iter().enumerate() { if i > 0 { out.push_str("&&"); } print_ve_item(x, out, true); } out.push(']'); }
+        VE::Sub(l) => { out.push('['); for (i, x) in l.iter().enumerate() { if i > 0 { out.push_str("--"); } print_ve_item(x, out, true); } out.push(']'); }
+        leaf => { out.push('['); print_ve_item(leaf, out, false); out.push(']'); }
+    }
+}
+fn ve_tokens(e: &VE, out: &mut String) {
+    let ranges = |out: &mut String, neg: bool, rs: &[(u32, u32)]| {
+        write!(out, "e {} {}", neg as u8, rs.len()).unwrap();
+        for (a, b) in rs { write!(out, " {} {}", a, b).unwrap(); }
+    };
+    let many = |out: &mut String, tag: &str, l: &[VE]| {
+        write!(out, "{} {}", tag, l.len()).unwrap();
+        for x in l { out.push(' '); ve_tokens(x, out); }
+    };
+    match e {
+        VE::Ch(c) => write!(out, "c {}", c).unwrap(),
+        VE::Range(a, b) => write!(out, "r {} {}", a, b).unwrap(),
+        VE::Esc(c) => ranges(out, c.is_ascii_uppercase(), &class_escape(c.to_ascii_lowercase(), false)),
+        VE::Prop(neg, name) => {
+            // the positive set from the table C11 proves equal to Unicode 17
+            let rs = regress::verif::property_lookup(None, name, true).map(|x| x.0).unwrap_or_default();
+            ranges(out, *neg, &rs)
+        }
+        VE::Strs(ss) => {
+            write!(out, "s {}", ss.len()).unwrap();
+            for st in ss { write!(out, " {}", st.len()).unwrap(); for c in st { write!(out, " {}", c).unwrap(); } }
+        }
+        VE::Union(l) => many(out, "U", l),
+        VE::Inter(l) => many(out, "I", l),
+        VE::Sub(l) => many(out, "S", l),
+        VE::Neg(l) => { out.push_str("N "); many(out, "U", l) }
+    }
+}
+/// characters and strings worth probing for a class expression
+pub fn ve_probes(e: &VE, ps: &mut Vec<String>) {
+    let mut push_cp = |c: u32, ps: &mut Vec<String>| { if let Some(ch) = char::from_u32(c) { ps.push(ch.to_string()); } };
+    match e {
+        VE::Ch(c) => {
+            for d in [*c, c.wrapping_sub(1), c + 1] { push_cp(d, ps); }
+            if let Some(ch) = char::from_u32(*c) { ps.push(ch.to_uppercase().collect()); ps.push(ch.to_lowercase().collect()); }
+        }
+        VE::Range(a, b) => { for d in [*a, *b, a.wrapping_sub(1), b + 1, (a + b) / 2] { push_cp(d, ps); } }
+        VE::Strs(ss) => {
+            for st in ss {
+                let t: String = st.iter().filter_map(|c| char::from_u32(*c)).collect();
+                ps.push(t.to_uppercase()); ps.push(t.to_lowercase());
+                if !t.is_empty() { let mut u = t.clone(); u.pop(); ps.push(u); let mut v2 = t.clone(); v2.push('a'); ps.push(v2); }
+                ps.push(t);
+            }
+        }
+        VE::Esc(_) | VE::Prop(_, _) => {}
+        VE::Union(l) | VE::Inter(l) | VE::Sub(l) | VE::Neg(l) => { for x in l { ve_probes(x, ps); } }
+    }
+}
 pub fn print(a: &Ast, out: &mut String, vmode: bool) {
     match a {
+        Ast::VClass(e) => print_ve_class(e, out),
         Ast::Empty => {}
         Ast::Char(c) => esc_char(*c, out, false, vmode),
         Ast::Any => out.push('.'),
@@ -404,6 +531,7 @@ pub struct Ctx {
 pub fn spec_tokens(a: &Ast, fl: Fl, cx: &mut Ctx, out: &mut String) -> bool {
     let b = |x: bool| x as u8;
     match a {
+        Ast::VClass(e) => { write!(out, "VCls {} ", b(fl.i)).unwrap(); ve_tokens(e, out); }
         Ast::Empty => out.push_str("E"),
         Ast::Char(c) => write!(out, "C {} {}", c, b(fl.i)).unwrap(),
         Ast::Any => write!(out, "Any {}", b(fl.s)).unwrap(),
@@ -601,7 +729,11 @@ pub fn cmd_spec(args: &[String]) {
             let f = *r.pick(&flagsets);
             let depth = if r.chance(1, 5) { 3 } else { 1 + r.below(2) as u32 };
             let mut g = G { r: &mut r, unicode: f.contains('u'), vmode: f.contains('v'), ngroups_seen: 0, names_seen: vec![] };
-            if class_mode {
+            if class_mode && g.vmode && g.r.chance(2, 3) {
+                let d = 1 + g.r.below(3) as u32;
+                let e = g.ve(d, true);
+                (Ast::Seq(vec![Ast::Bol, Ast::VClass(e), Ast::Eol]), f)
+            } else if class_mode {
                 let n = 1 + g.r.below(4) as usize;
                 let allow_str = g.vmode;
                 let mut items: Vec<Item> = (0..n).map(|_| g.item(allow_str)).collect();
@@ -616,8 +748,12 @@ pub fn cmd_spec(args: &[String]) {
             }
         };
         let class_probes: Vec<String> = if class_mode && !is_family {
-            let mut ps: Vec<String> = ["\0", "a", "A", "b", "k", "K", "\u{212A}", "s", "S", "\u{17F}", "é", "É", "ß", "\u{7f}", "\u{80}", "_", "0", " ", "\n", "", "ab", "\u{10FFFF}", "\u{FFFF}"]
+            let mut ps: Vec<String> = ["\0", "a", "A", "b", "k", "K", "\u{212A}", "s", "S", "\u{17F}", "é", "É", "ß", "\u{7f}", "\u{80}", "_", "0", " ", "\n", "", "ab", "\u{10FFFF}", "\u{FFFF}",
+                                       "B", "c", "C", "f", "F", "g", "G", "j", "1", "\u{3c3}", "\u{3c2}", "\u{3a3}", "\u{1c5}", "AB", "aB", "-", "&"]
                 .iter().map(|t| t.to_string()).collect();
+            if let Ast::Seq(v) = &ast {
+                if let Ast::VClass(e) = &v[1] { ve_probes(e, &mut ps); }
+            }
             let mut push_cp = |c: u32, ps: &mut Vec<String>| { if let Some(ch) = char::from_u32(c) { ps.push(ch.to_string()); } };
             if let Ast::Seq(v) = &ast {
                 if let Ast::Class { items, .. } = &v[1] {
